@@ -149,6 +149,9 @@ pub fn eval_history(h: &History, focus: Focus, profile: &str, full: bool) -> Cas
     let m = h.max_names().max(1);
     let pool = pool_for(m, h.ns);
     let _ = full;
+    // sparse monitoring: no query between the operations (queries canonicalise handles, i.e. they change the union-find through
+    // path compression, which can mask defects that need an untouched chain); everything is judged once at the end
+    let sparse = SPARSE.with(|s| s.get());
     let mut cc = CC::new(pool);
     let mut eg: EGraph<LSym> = EGraph::default();
     let mut ids: BTreeMap<usize, AppliedId> = BTreeMap::new();
@@ -231,6 +234,9 @@ pub fn eval_history(h: &History, focus: Focus, profile: &str, full: bool) -> Cas
 
         // ---- compare: top-level terms added so far, all relative namings (after every operation)
         let last = step + 1 == h.ops.len();
+        if sparse && !last {
+            continue;
+        }
         let mut items: Vec<(Tm, AppliedId, bool)> = added.iter().map(|i| (h.terms[*i].canon(), ids[i].clone(), true)).collect();
         if last {
             // plus all proper subterms (bodies open), obtained by non-mutating lookup
@@ -413,9 +419,15 @@ fn redecide_support(h: &History, upto: usize, t: &Tm, pool: u32) -> Option<BTree
     cc.support(t)
 }
 
+thread_local! {
+    pub static SPARSE: std::cell::Cell<bool> = std::cell::Cell::new(false);
+}
+
 pub fn run(args: &Args, rep: &mut Rep, focus: Focus) {
     let profile = args.param_s("profile", "mix");
+    let sparse = args.param_u("sparse", 0) == 1;
     drive(args, rep, move |rng, _| {
+        SPARSE.with(|s| s.set(sparse));
         let p = if profile == "mix" {
             match rng.below(10) {
                 0 => "small",
